@@ -307,6 +307,21 @@ Section SessInv.
     intros H. inversion H; subst. unfold WP. cbn [fst] in Hsl. rewrite Hsl. exact Ep.
   Qed.
 
+  Lemma handle_est_abort_P w nid fseid o e w' out : WP w -> handle_est_abort w nid fseid o e = Ok (w', out) -> WP w'.
+  Proof.
+    intros HW. unfold handle_est_abort. destruct nid as [| |id]; try (intros H; inversion H; subst; exact HW).
+    destruct (alookup id (w_rnodes w)) as [ref|]; [|intros H; inversion H; subst; exact HW].
+    destruct fseid as [| |rid]; try (intros H; inversion H; subst; exact HW).
+    destruct (new_sess w rid ref) as [[w1 s]|f] eqn:En; [|discriminate].
+    destruct (new_sess_P _ _ _ _ _ HW En) as [HW1 Hs].
+    match goal with |- context [run_categories e o est_order ?cx] =>
+      destruct (run_categories e o est_order cx) as [[c rs]|] eqn:Ec end; [|intros H; inversion H; subst; exact HW].
+    apply P_cats in Ec; [|exact Hs]. cbn [fst] in Ec.
+    match goal with |- context [put_slot ?wx (c_s c)] => destruct (put_slot wx (c_s c)) as [w3|f] eqn:Ep end; [|discriminate].
+    apply put_slot_P in Ep; [|exact HW1|exact Ec].
+    intros H. inversion H; subst. exact Ep.
+  Qed.
+
   Lemma update_node_id_slots w ref newid : w_slots (update_node_id w ref newid) = w_slots w.
   Proof. unfold update_node_id. destruct (nth_error (w_heap w) ref); reflexivity. Qed.
 
@@ -340,6 +355,26 @@ Section SessInv.
       intros H. inversion H; subst. unfold WP. cbn [fst] in Hsl. rewrite Hsl. exact HW.
   Qed.
 
+  Lemma handle_mod_abort_P w seid nid o e w' out : WP w -> handle_mod_abort w seid nid o e = Ok (w', out) -> WP w'.
+  Proof.
+    intros HW. unfold handle_mod_abort. destruct (lookup (w_slots w) seid) as [[s|]|f] eqn:El; [| |discriminate].
+    - pose proof (lookup_P _ _ _ HW El) as Hs.
+      destruct nid as [| |id]; [|intros H; inversion H; subst; exact HW|].
+      + destruct (run_categories e o mod_order (mkCtx s (w_dp w) [])) as [[c rs]|] eqn:Ec; [|intros H; inversion H; subst; exact HW].
+        apply P_cats in Ec; [|exact Hs]. cbn [fst] in Ec.
+        match goal with |- context [put_slot ?wx ?sx] => destruct (put_slot wx sx) as [w2|f] eqn:Ep end; [|discriminate].
+        apply put_slot_P in Ep; [|exact HW|exact Ec].
+        intros H. inversion H; subst. exact Ep.
+      + assert (HW1 : WP (update_node_id w (s_node s) id)) by (unfold WP; rewrite update_node_id_slots; exact HW).
+        match goal with |- context [run_categories e o mod_order ?cx] =>
+          destruct (run_categories e o mod_order cx) as [[c rs]|] eqn:Ec end; [|intros H; inversion H; subst; exact HW].
+        apply P_cats in Ec; [|exact Hs]. cbn [fst] in Ec.
+        match goal with |- context [put_slot ?wx ?sx] => destruct (put_slot wx sx) as [w2|f] eqn:Ep end; [|discriminate].
+        apply put_slot_P in Ep; [|exact HW1|exact Ec].
+        intros H. inversion H; subst. exact Ep.
+    - intros H. inversion H; subst. exact HW.
+  Qed.
+
   Lemma handle_del_P w peer seq seid e w' out : WP w -> handle_del w peer seq seid e = Ok (w', out) -> WP w'.
   Proof.
     intros HW. unfold handle_del. destruct (lookup (w_slots w) seid) as [[s|]|f]; [| |discriminate].
@@ -371,6 +406,16 @@ Section SessInv.
     - apply handle_est_P. exact HW0.
     - apply handle_mod_P. exact HW0.
     - apply handle_del_P. exact HW0.
+  Qed.
+
+  Lemma recv_request_abort_P w peer seq m e w' out : WP w -> recv_request_abort w peer seq m e = Ok (w', out) -> WP w'.
+  Proof.
+    intros HW. unfold recv_request_abort.
+    destruct (klookup (peer, seq) (w_rx w)) as [[p|]|]; try (intros H; inversion H; subst; exact HW).
+    assert (HW0 : WP (set_rx (kset (peer, seq) None (w_rx w)) w)) by exact HW.
+    destruct m; try (intros H; inversion H; subst; exact HW0).
+    - apply handle_est_abort_P. exact HW0.
+    - apply handle_mod_abort_P. exact HW0.
   Qed.
 
   Lemma recv_response_P w peer seq m e w' out : WP w -> recv_response w peer seq m e = Ok (w', out) -> WP w'.
@@ -426,8 +471,10 @@ Section SessInv.
 
   Theorem step_sess_inv w ev w' o : WP w -> step w ev = Ok (w', o) -> WP w'.
   Proof.
-    intros HW. destruct ev as [peer seq m e|seid items e|peer seq|peer seq]; cbn [step].
+    intros HW. destruct ev as [peer seq m e|peer seq m e|seid items e|peer seq|peer seq]; cbn [step].
     - destruct (is_request m); [apply recv_request_P | apply recv_response_P]; exact HW.
+    - destruct (is_request m); [apply recv_request_abort_P; exact HW|].
+      destruct (klookup (peer, seq) (w_tx w)); intros H; inversion H; subst; exact HW.
     - apply serve_report_P. exact HW.
     - unfold timeout_tx. destruct (klookup (peer, seq) (w_tx w)) as [t|]; [|intros H; inversion H; subst; exact HW].
       destruct (tx_count t <? w_maxretrans w); intros H; inversion H; subst; exact HW.
